@@ -55,7 +55,7 @@ def run(prog: Program, rep: Report, tier: str) -> None:
         raise AnalysisError("DeviceType / DeviceCategory are no longer enums")
     where = f"{loc(dt, dt.node)} DeviceType"
     for a in ("hex_rep", "protocol_type", "category", "value"):
-        if a not in dt.enum.attrs or isinstance(dt.enum.attrs[a], tuple):
+        if a not in dt.enum.attrs or (isinstance(dt.enum.attrs[a], tuple) and dt.enum.attrs[a][:1] != ("expr",)):
             raise AnalysisError(f"DeviceType.{a} is not a plain member attribute any more")
     codes: Dict[str, str] = {}
     values: Dict[str, str] = {}
